@@ -83,7 +83,7 @@ func EncodeStack(pcs []uintptr, prefix string) string {
 		// TODO(adonovan): this CutLast(".") operation isn't
 		// appropriate for generic function symbols.
 		path, fname := cutLastDot(fr.Function)
-		if path == lastImport {
+		if path == lastImport && path != "" {
 			path = `"` // (a ditto mark)
 		} else {
 			lastImport = path
